@@ -30,7 +30,10 @@ MachineKind(e) ==
                   [i \in 1..(e.op.off + Len(e.win)) |-> IF i > e.op.off THEN e.win[i - e.op.off] ELSE 0]).k
 Drift(e) ==
   IF e.op.k \in {"rd", "rdv"} /\ e.res.k \in {"ok", "oob", "err"} /\ (e.op.k = "rdv" => e.op.off <= e.cap + 64)
-  THEN (IF MachineKind(e) # e.res.k THEN PrintT(<<"DRIFT", l, 0, e.op.k>>) ELSE TRUE)
+  \* the machine's decoder fails only for a missing terminator; the library also refuses values that overflow the type
+  THEN (IF (MachineKind(e) = "oob") # (e.res.k = "oob") \/ (MachineKind(e) = "err" /\ e.res.k = "ok")
+           \/ (e.op.k = "rd" /\ MachineKind(e) # e.res.k)
+        THEN PrintT(<<"DRIFT", l, 0, e.op.k>>) ELSE TRUE)
   ELSE TRUE
 
 Init == l = 1 /\ live = FALSE
